@@ -5,8 +5,8 @@ from conc_common import run_conc
 from seq_common import replay_seq
 
 PROPERTY = 'C14'
-GEN = ['LogicDG']
-PROPS = ['SalsaVerif.Props.C14', 'SalsaVerif.Props.C14Sync', 'SalsaVerif.Props.GenLogicDG']
+GEN = ['LogicDG', 'LogicCycle']
+PROPS = ['SalsaVerif.Props.C14', 'SalsaVerif.Props.C14Sync', 'SalsaVerif.Props.GenLogicDG', 'SalsaVerif.Props.GenLogicProvisional']
 KNOWN = ('fb-participant-after-revalidated-head', 'fix-participant-stale-after-revalidation')
 EXPLANATION = ('Single thread (Lean cycle model): a request that re-enters a no-recovery node while it is on the stack ends in `panic cycle`, '
                'never a value, and the evaluator is total so never hangs (`c14_panics`, `c14_total`); the reported panic names a no-recovery '
